@@ -4,8 +4,8 @@
    (id of the contributing delegation model, content): only one model may speak for a resource.
    smerge / sunmerge are what merge_adm / unmerge_adm (fim/graph/resources/neo4j_cbm.py) do, seen through
    the canonical snapshot of the combined graph; the harness checks that on every run (Cbm14SpecCheck.v).
-   Like the code, a connection carries no contributor record, and a connection found in two merged models
-   gets networkx's 'contraction' mark (e_flag).  Definitions only. *)
+   Like the code, a connection carries no contributor record (a connection found in two merged models is
+   kept once, with the combined model's data).  Definitions only. *)
 From Coq Require Import List NArith Bool.
 Import ListNotations.
 Open Scope N_scope.
@@ -36,7 +36,7 @@ Record adm := mkAdm { adm_id : N; adm_nodes : list (N * anode); adm_edges : list
 
 Record cnode := mkC { c_cls : N; c_oth : props; c_con : list N;
                       c_ld : option (N * N); c_cd : option (N * N) }.
-Record cbm := mkCbm { nodes : list (N * cnode); edges : list (ekey * (edata * bool)) }.
+Record cbm := mkCbm { nodes : list (N * cnode); edges : list (ekey * edata) }.
 Definition empty : cbm := mkCbm [] [].
 
 Definition is_some {A} (o : option A) : bool := match o with Some _ => true | None => false end.
@@ -62,9 +62,8 @@ Definition merge_nodes (g : N) (cn : list (N * cnode)) (an : list (N * anode)) :
                             | Some a => upd g a (snd kc)
                             | None => snd kc end)) cn
   ++ map (fun ka => (fst ka, stamp g (snd ka))) (filter (fun ka => negb (hasn (fst ka) cn)) an).
-Definition merge_edges (ce : list (ekey * (edata * bool))) (ae : list (ekey * edata)) : list (ekey * (edata * bool)) :=
-  map (fun kd => (fst kd, (fst (snd kd), snd (snd kd) || hase (fst kd) ae))) ce
-  ++ map (fun kd => (fst kd, (snd kd, false))) (filter (fun kd => negb (hase (fst kd) ce)) ae).
+Definition merge_edges (ce ae : list (ekey * edata)) : list (ekey * edata) :=
+  ce ++ filter (fun kd => negb (hase (fst kd) ce)) ae.
 
 Definition smerge (C : cbm) (A : adm) : option cbm :=
   if conflict C A then None
@@ -147,5 +146,3 @@ Definition not_contributorb (g : N) (C : cbm) : bool :=
 Definition no_new_inner_edgesb (C : cbm) (A : adm) : bool :=
   forallb (fun kd => implb (hasn (fst (fst kd)) (nodes C) && hasn (snd (fst kd)) (nodes C)) (hase (fst kd) (edges C)))
           (adm_edges A).
-Definition no_shared_edgeb (C : cbm) (A : adm) : bool :=
-  forallb (fun kd => negb (hase (fst kd) (adm_edges A))) (edges C).
